@@ -1,6 +1,6 @@
 Require Import WS.Base.Bytes WS.Base.Tape.
 Require WS.Cases.C13 WS.Cases.C03 WS.Cases.C04 WS.Cases.C05 WS.Cases.C06 WS.Cases.C08 WS.Cases.C17 WS.Cases.C07r.
-Require WS.Cases.C02 WS.Cases.C10 WS.Cases.C20 WS.Cases.C12 WS.Cases.C14 WS.Cases.C15 WS.Cases.C01.
+Require WS.Cases.C02 WS.Cases.C10 WS.Cases.C20 WS.Cases.C12 WS.Cases.C14 WS.Cases.C15 WS.Cases.C01 WS.Cases.C09.
 
 Definition judge_any (kind:N) (t:tape) : tape :=
   match kind with
@@ -13,6 +13,8 @@ Definition judge_any (kind:N) (t:tape) : tape :=
   | 6 => C06.judge t
   | 7 => C07r.judge t
   | 8 => C08.judge t
+  | 9 => C09.judge t
+  | 11 => C09.judge t
   | 10 => C10.judge t
   | 12 => C12.judge t
   | 14 => C14.judge t
